@@ -9,7 +9,7 @@ import time
 
 VERIF = os.path.dirname(os.path.dirname(os.path.abspath(__file__)))
 REPO = os.environ.get('VERIF_REPO', '/repo')
-KROOT = os.environ.get('VERIF_KROOT') or os.path.join(VERIF, 'build', 'kani')
+KROOT = os.environ.get('VERIF_KROOT') or os.path.join(VERIF, 'build', 'kani' + (('-' + os.environ['VERIF_SLOT']) if os.environ.get('VERIF_SLOT') else ''))
 CRATE = os.path.join(KROOT, 'crate')
 CACHE = os.path.join(VERIF, 'build', 'cache')
 SRC_FILES = ['opcodes.rs', 'protocol.rs', 'stack.rs', 'state.rs']
